@@ -30,10 +30,12 @@ Proof.
   - destruct (_ && _); [reflexivity|apply core_with_bad].
   - apply core_with_bad.
   - destruct (_ && _); [|apply core_with_bad]. rewrite core_do_request. apply core_upd_p.
-  - destruct (_ && _); [apply core_with_bad|reflexivity].
+  - reflexivity.
 Qed.
 Lemma core_assign s tried asg : core (assign s tried asg) = core s.
-Proof. apply core_assign_go. Qed.
+Proof. unfold assign. destruct (Nat.eqb _ _); [apply core_assign_go|apply core_with_bad]. Qed.
+Lemma core_post_check s : core (post_check s) = core s.
+Proof. unfold post_check. destruct (first_such _ _); [apply core_with_bad|]. destruct (first_such _ _); [apply core_with_bad|reflexivity]. Qed.
 
 Ltac core_inj H :=
   unfold core in H; inversion H; clear H.
@@ -182,10 +184,12 @@ Proof.
     apply peers_ok_do_request. apply peers_ok_upd; [exact H|]. intros _.
     unfold legal_new, open_q in El. apply PP_set_dl_some; [destruct (q_closed (get_p s p)); [|reflexivity]|apply new_dl_ok; lia].
     exfalso. rewrite !Bool.andb_true_iff in El. cbn in El. intuition discriminate.
-  - destruct (_ && _); [apply peers_ok_with_bad|]; exact H.
+  - exact H.
 Qed.
 Lemma peers_ok_assign s tried asg : peers_ok s -> peers_ok (assign s tried asg).
-Proof. apply peers_ok_assign_go. Qed.
+Proof. intros H. unfold assign. destruct (Nat.eqb _ _); [apply peers_ok_assign_go; exact H|exact H]. Qed.
+Lemma peers_ok_post_check s : peers_ok s -> peers_ok (post_check s).
+Proof. intros H. unfold post_check. destruct (first_such _ _); [exact H|]. destruct (first_such _ _); exact H. Qed.
 
 Lemma got_nb_ok bls d b n good pd' g : dl_ok bls d -> got_nb (l_pd d) b n = (pd', g) ->
   match g with
@@ -505,8 +509,11 @@ Proof.
   destruct (dispatch fixed s0 code p a b c g bits) as [s1 tried]. cbn [fst] in G1.
   assert (G2 : GInv d0 (assign s1 (if s_completed s1 || s_stopped s1 then [] else tried) asg)).
   { eapply ginv_core; [apply core_assign|apply peers_ok_assign; apply (gi_peers _ _ G1)|exact G1]. }
-  cbn [fst]. destruct ((code =? 9) && negb (z2b g)); [|exact G2].
-  destruct (s_inflight s0) as [[[src i] [|]]|]; [apply ginv_h_write_post; exact G2|exact G2|exact G2].
+  cbn [fst].
+  assert (G3 : GInv d0 (if (code =? 9) && negb (z2b g) then match s_inflight s0 with Some (_, i, true) => h_write_post (assign s1 (if s_completed s1 || s_stopped s1 then [] else tried) asg) i | _ => assign s1 (if s_completed s1 || s_stopped s1 then [] else tried) asg end else assign s1 (if s_completed s1 || s_stopped s1 then [] else tried) asg)).
+  { destruct ((code =? 9) && negb (z2b g)); [|exact G2].
+    destruct (s_inflight s0) as [[[src i] [|]]|]; [apply ginv_h_write_post; exact G2|exact G2|exact G2]. }
+  eapply ginv_core; [apply core_post_check|apply peers_ok_post_check; apply (gi_peers _ _ G3)|exact G3].
 Qed.
 
 (* ---- the block lists never change ---- *)
@@ -558,6 +565,7 @@ Proof.
   pose proof (blocks_dispatch fixed (clear_frames s) code p a b c g bits) as H.
   destruct (dispatch fixed (clear_frames s) code p a b c g bits) as [s1 tried]. cbn [fst] in *.
   assert (H2 : s_blocks (assign s1 (if s_completed s1 || s_stopped s1 then [] else tried) asg) = s_blocks s) by (rewrite (core_blocks _ _ (core_assign _ _ _)); exact H).
+  rewrite (core_blocks _ _ (core_post_check _)).
   destruct ((code =? 9) && negb (z2b g)); [|exact H2]. destruct (s_inflight (clear_frames s)) as [[[src i] [|]]|]; rewrite ?blocks_h_write_post; exact H2.
 Qed.
 
@@ -662,6 +670,11 @@ Proof.
   eapply srel_trans; [|apply srel_do_request]. apply srel_upd. apply stable_same. intros q; auto.
 Qed.
 
+Lemma srel_assign s tried asg : srel s (assign s tried asg).
+Proof. unfold assign. destruct (Nat.eqb _ _); [apply srel_assign_go|apply srel_peers; reflexivity]. Qed.
+Lemma srel_post_check s : srel s (post_check s).
+Proof. unfold post_check. destruct (first_such _ _); [apply srel_peers; reflexivity|]. destruct (first_such _ _); [apply srel_peers; reflexivity|apply srel_refl]. Qed.
+
 Ltac srel_tac :=
   repeat first
     [ apply srel_refl
@@ -759,7 +772,8 @@ Proof.
   destruct ev as [|code [|p [|a [|b [|c [|g [|x r]]]]]]]; try (apply srel_peers; reflexivity).
   pose proof (srel_dispatch fixed (clear_frames s) code p a b c g bits) as H.
   destruct (dispatch fixed (clear_frames s) code p a b c g bits) as [s1 tried]. cbn [fst] in *.
-  eapply srel_trans; [exact H|]. eapply srel_trans; [apply srel_assign_go|].
+  eapply srel_trans; [exact H|]. eapply srel_trans; [apply srel_assign|].
+  eapply srel_trans; [|apply srel_post_check].
   destruct ((code =? 9) && negb (z2b g)); [|apply srel_refl]. destruct (s_inflight (clear_frames s)) as [[[src i] [|]]|]; [apply srel_h_write_post|apply srel_refl|apply srel_refl].
 Qed.
 
@@ -833,13 +847,16 @@ Proof.
   destruct (D Hpr0 Hsrc) as [Dc Dp].
   destruct (h_write_pre (clear_frames s) (z2b g)) as [s1 tried]. cbn [fst] in *. rewrite Hin0.
   change (9 =? 9) with true. destruct (true && negb (z2b g)); cbn iota.
-  all: pose proof (core_assign s1 (if s_completed s1 || s_stopped s1 then [] else tried) asg) as Hc.
-  all: assert (E1 : s_written (assign s1 (if s_completed s1 || s_stopped s1 then [] else tried) asg) = s_written s1) by (unfold core in Hc; inversion Hc; reflexivity).
-  all: assert (E2 : s_done (assign s1 (if s_completed s1 || s_stopped s1 then [] else tried) asg) = s_done s1) by (unfold core in Hc; inversion Hc; reflexivity).
-  all: assert (E3 : s_banned (assign s1 (if s_completed s1 || s_stopped s1 then [] else tried) asg) = s_banned s1) by (unfold core in Hc; inversion Hc; reflexivity).
+  all: set (X := assign s1 (if s_completed s1 || s_stopped s1 then [] else tried) asg).
+  all: pose proof (core_assign s1 (if s_completed s1 || s_stopped s1 then [] else tried) asg) as Hc; fold X in Hc.
+  all: pose proof (core_post_check X) as Hc2.
+  all: assert (E1 : s_written (post_check X) = s_written s1) by (unfold core in Hc, Hc2; inversion Hc; inversion Hc2; congruence).
+  all: assert (E2 : s_done (post_check X) = s_done s1) by (unfold core in Hc, Hc2; inversion Hc; inversion Hc2; congruence).
+  all: assert (E3 : s_banned (post_check X) = s_banned s1) by (unfold core in Hc, Hc2; inversion Hc; inversion Hc2; congruence).
   all: cbn [fst]; rewrite E1, E2, E3.
   all: split; [exact A|split; [exact B|split; [exact C|]]].
-  all: destruct (srel_assign_go asg s1 (if s_completed s1 || s_stopped s1 then [] else tried) asg 0 src Dp) as (_ & L & _); apply L; exact Dc.
+  all: destruct (srel_assign s1 (if s_completed s1 || s_stopped s1 then [] else tried) asg src Dp) as (Dp2 & L & _); fold X in Dp2, L.
+  all: destruct (srel_post_check X src Dp2) as (_ & L2 & _); apply L2; apply L; exact Dc.
 Qed.
 
 (* the blocks calculateBlocks produces have distinct begins (hypothesis [blocks_nodup] of [init_ok]) *)
@@ -865,5 +882,129 @@ Proof.
   assert (Hgen : reach fixed s0 match step_case fixed np P s l with Some (s', _, rest) => last_state fixed f np P s' rest | None => s end).
   { destruct (step_case fixed np P s l) as [[[s' o] rest]|] eqn:E; [|exact Hr]. apply IH. eapply step_case_reach; eauto. }
   destruct l as [|x r]; [exact Hgen|]. destruct x as [|px|px]; try exact Hgen.
-  destruct px; try exact Hgen. destruct r; [exact Hr|exact Hgen].
+  destruct px; try exact Hgen. destruct r as [|z r]; [exact Hgen|]. destruct r; [exact Hr|exact Hgen].
+Qed.
+
+(* ---- the validation flag is sticky: a history whose last state is unflagged was validated throughout ---- *)
+Definition bad_le (s s' : lst) : Prop := s_bad s <> 0 -> s_bad s' <> 0.
+Lemma bad_le_refl s : bad_le s s. Proof. intros H; exact H. Qed.
+Lemma bad_le_trans a b c : bad_le a b -> bad_le b c -> bad_le a c. Proof. unfold bad_le; auto. Qed.
+Lemma bad_le_eq s s' : s_bad s' = s_bad s -> bad_le s s'. Proof. unfold bad_le. intros ->. auto. Qed.
+Lemma bad_le_with_bad s w : bad_le s (with_bad s w).
+Proof. unfold bad_le, with_bad; cbn. destruct (s_bad s =? 0) eqn:E; [lia|auto]. Qed.
+Lemma bad_upd_p s p f : s_bad (upd_p s p f) = s_bad s. Proof. unfold upd_p. destruct (p <? 0); reflexivity. Qed.
+Lemma bad_do_request s p : s_bad (do_request s p) = s_bad s.
+Proof. unfold do_request. destruct (q_dl _); [|reflexivity]. destruct (request_blocks _ _). apply bad_upd_p. Qed.
+Lemma bad_interest s p : s_bad (upd_interest s p) = s_bad s.
+Proof. unfold upd_interest. destruct (Bool.eqb _ _); [reflexivity|apply bad_upd_p]. Qed.
+Lemma bad_close_t fixed s p : s_bad (fst (close_t fixed s p)) = s_bad s. Proof. apply bad_upd_p. Qed.
+Lemma bad_fold f : forall l s, s_bad (fold_left (fun s p => upd_p s p f) l s) = s_bad s.
+Proof. induction l as [|x r IH]; intros s; cbn; [reflexivity|]. rewrite IH. apply bad_upd_p. Qed.
+
+Ltac bad_tac := repeat first [reflexivity | rewrite bad_do_request | rewrite bad_interest | rewrite bad_upd_p | rewrite bad_close_t].
+
+Lemma bad_le_assign_go : forall asg s tried all p, bad_le s (assign_go s tried asg all p).
+Proof.
+  induction asg as [|a r IH]; intros s tried all p; cbn [assign_go]; [apply bad_le_refl|].
+  eapply bad_le_trans; [|apply IH].
+  destruct (q_dl (get_p s p)), (dec_asg a) as [[i af]|]; try (destruct (_ && _)); try apply bad_le_refl; try apply bad_le_with_bad.
+  apply bad_le_eq. bad_tac.
+Qed.
+Lemma bad_le_dispatch fixed s code p a b c g bits : bad_le s (fst (dispatch fixed s code p a b c g bits)).
+Proof.
+  unfold dispatch.
+  destruct (code =? 1); [apply bad_le_eq; unfold h_have; destruct (_ || _); cbn [fst]; bad_tac|].
+  destruct (code =? 2); [apply bad_le_eq; unfold h_bits; destruct (z2b g); cbn [fst]; bad_tac|].
+  destruct (code =? 3); [apply bad_le_eq; unfold h_bits; cbn [fst]; bad_tac|].
+  destruct (code =? 4); [apply bad_le_eq; unfold h_allowed_fast; destruct (_ || _); cbn [fst]; bad_tac|].
+  destruct (code =? 5); [apply bad_le_eq; unfold h_unchoke; destruct (q_dl _) as [d|]; [destruct (l_af d)|]; cbn [fst]; bad_tac|].
+  destruct (code =? 6); [apply bad_le_eq; unfold h_choke; destruct (q_dl _) as [d|]; [destruct (l_af d)|]; cbn [fst]; bad_tac|].
+  destruct (code =? 7).
+  { apply bad_le_eq; unfold h_reject; destruct (_ || _); [bad_tac|]. destruct (q_dl _) as [d|]; [|reflexivity].
+    destruct (negb _); [reflexivity|]. destruct (rejected _ _ _) as [pd' [|]]; cbn [fst]; bad_tac. }
+  destruct (code =? 8).
+  { destruct (s_inflight s); [apply bad_le_with_bad|]. apply bad_le_eq. unfold h_piece.
+    destruct (q_closed _); [reflexivity|]. destruct (_ || _); [bad_tac|]. destruct (q_dl _) as [d|]; [|reflexivity].
+    destruct (negb _); [reflexivity|]. destruct (got_nb _ _ _) as [pd' gg].
+    destruct gg; try reflexivity; try (bad_tac; fail).
+    all: destruct (pd_finished pd'); [cbn; bad_tac|destruct (_ || _); cbn [fst]; bad_tac]. }
+  destruct (code =? 9).
+  { unfold h_write_pre. destruct (s_inflight s) as [[[src i] good]|]; [|apply bad_le_with_bad]. apply bad_le_eq.
+    destruct (good && z2b g); [reflexivity|]. destruct good; cbn [fst]; [rewrite bad_fold; reflexivity|]. cbn. unfold close_peer. bad_tac. }
+  destruct (code =? 10); [apply bad_le_eq; unfold h_snub; destruct (q_dl _); [destruct (q_choking _)|]; reflexivity|].
+  destruct (code =? 11); [apply bad_le_eq; unfold h_disconnect; bad_tac|].
+  destruct (code =? 12); [unfold h_connect; destruct (q_present _); cbn [fst]; [apply bad_le_with_bad|apply bad_le_eq; bad_tac]|].
+  destruct (code =? 13); [apply bad_le_eq; unfold h_ext; cbn [fst]; bad_tac|].
+  apply bad_le_refl.
+Qed.
+Lemma bad_post_fold i : forall l s, s_bad (fold_left (post_step i) l s) = s_bad s.
+Proof.
+  induction l as [|x r IH]; intros s; cbn [fold_left]; [reflexivity|]. rewrite IH. unfold post_step.
+  destruct (open_q _); [|reflexivity]. destruct (nthb _ i); bad_tac.
+Qed.
+Lemma bad_le_post_check s : bad_le s (post_check s).
+Proof. unfold post_check. destruct (first_such _ _); [apply bad_le_with_bad|]. destruct (first_such _ _); [apply bad_le_with_bad|apply bad_le_refl]. Qed.
+
+Theorem bad_sticky fixed s ev bits asg : s_bad (fst (lstep fixed s ev bits asg)) = 0 -> s_bad s = 0.
+Proof.
+  intros H. destruct (Z.eq_dec (s_bad s) 0) as [E|E]; [exact E|]. exfalso. revert H.
+  assert (L : bad_le s (fst (lstep fixed s ev bits asg))); [|apply L; exact E].
+  unfold lstep. apply (bad_le_trans _ (clear_frames s)); [apply bad_le_eq; reflexivity|].
+  destruct ev as [|code [|p [|a [|b [|c [|g [|x r]]]]]]]; try apply bad_le_with_bad.
+  pose proof (bad_le_dispatch fixed (clear_frames s) code p a b c g bits) as Hd.
+  destruct (dispatch fixed (clear_frames s) code p a b c g bits) as [s1 tried]. cbn [fst] in *.
+  eapply bad_le_trans; [exact Hd|].
+  eapply bad_le_trans; [|apply bad_le_post_check].
+  apply (bad_le_trans _ (assign s1 (if s_completed s1 || s_stopped s1 then [] else tried) asg)).
+  { unfold assign. destruct (Nat.eqb _ _); [apply bad_le_assign_go|apply bad_le_with_bad]. }
+  destruct ((code =? 9) && negb (z2b g)); [|apply bad_le_refl].
+  destruct (s_inflight (clear_frames s)) as [[[src i] [|]]|]; try apply bad_le_refl.
+  apply bad_le_eq. unfold h_write_post. change (fold_left _ (peer_ids ?s0) ?s0) with (fold_left (post_step i) (peer_ids s0) s0).
+  destruct (all_true _); cbn; apply bad_post_fold.
+Qed.
+
+(* ---- C10 / C09 on the state after every validated handler ---- *)
+Lemma first_such_none f l : first_such f l = None -> forall x, In x l -> f x = false.
+Proof.
+  unfold first_such. intros H x Hx. destruct (filter f l) eqn:E; [|discriminate].
+  destruct (f x) eqn:Ef; [|reflexivity]. assert (In x (filter f l)) by (apply filter_In; auto). rewrite E in H0. destruct H0.
+Qed.
+Lemma with_bad_nonzero s w : w <> 0 -> s_bad (with_bad s w) <> 0.
+Proof. intros Hw. unfold with_bad; cbn. destruct (s_bad s =? 0) eqn:E; [exact Hw|lia]. Qed.
+
+Lemma elig_default s p : (length (s_peers s) <= Z.to_nat p)%nat -> elig s p = false.
+Proof.
+  intros H. unfold elig, get_p. rewrite nth_overflow by exact H. cbn. rewrite !Bool.andb_false_r. reflexivity.
+Qed.
+Lemma elig_norm s p : elig s p = elig s (Z.of_nat (Z.to_nat p)).
+Proof. unfold elig, get_p. rewrite Nat2Z.id. reflexivity. Qed.
+
+Theorem post_check_ok s : s_bad (post_check s) = 0 ->
+  (forall p, elig s p = false) /\ (forall i, 0 <= i < np_of s -> over_dup s i = false).
+Proof.
+  unfold post_check. intros H.
+  destruct (first_such (elig s) (peer_ids s)) as [p0|] eqn:E1; [exfalso; revert H; apply with_bad_nonzero; lia|].
+  destruct (first_such (over_dup s) _) as [i0|] eqn:E2; [exfalso; revert H; apply with_bad_nonzero; lia|].
+  split.
+  - intros p. rewrite elig_norm. destruct (Nat.lt_ge_cases (Z.to_nat p) (length (s_peers s))) as [Hlt|Hge].
+    + apply (first_such_none _ _ E1). unfold peer_ids. apply in_map. apply in_seq. lia.
+    + apply elig_default. rewrite Nat2Z.id. exact Hge.
+  - intros i Hi. apply (first_such_none _ _ E2). unfold np_of, zlen in Hi.
+    replace i with (Z.of_nat (Z.to_nat i)) by lia. apply in_map. apply in_seq. lia.
+Qed.
+
+Lemma post_check_state s : s_bad (post_check s) = 0 -> post_check s = s.
+Proof.
+  unfold post_check. intros H.
+  destruct (first_such (elig s) (peer_ids s)); [exfalso; revert H; apply with_bad_nonzero; lia|].
+  destruct (first_such (over_dup s) _); [exfalso; revert H; apply with_bad_nonzero; lia|reflexivity].
+Qed.
+
+Theorem step_no_idle fixed s ev bits asg : let s' := fst (lstep fixed s ev bits asg) in
+  s_bad s' = 0 -> (forall p, elig s' p = false) /\ (forall i, 0 <= i < np_of s' -> over_dup s' i = false).
+Proof.
+  cbn zeta. unfold lstep. destruct ev as [|code [|p [|a [|b [|c [|g [|x r]]]]]]];
+    try (cbn [fst]; intros H; exfalso; revert H; apply with_bad_nonzero; lia).
+  destruct (dispatch fixed (clear_frames s) code p a b c g bits) as [s1 tried]. cbn [fst].
+  intros H. rewrite (post_check_state _ H). apply post_check_ok. exact H.
 Qed.
